@@ -134,12 +134,19 @@ Lemma rf_Name : forall i all fs f e r, root_fields md GE G i all fs (ACons (ChNa
   match find_field all f with
   | Some x =>
       guard (existsb (fun y => fst y =? o_id f) fs) (o_nid f) Other ;;;
+      guard (negb (args_has_pos r)) (o_nid f) Conservative ;;;
       root md GE G (snd x) e ;;;
       root_fields md GE G i all (filter (fun y => negb (fst y =? o_id f)) fs) r
   | None => Bad (o_nid f) UnknownField
   end.
 Proof. reflexivity. Qed.
-Lemma rf_Others : forall i all fs e r, root_fields md GE G i all fs (ACons ChOthers e r) = Bad (head_nid e) Conservative.
+Lemma rf_Others1 : forall i all fs e, root_fields md GE G i all fs (ACons ChOthers e ANil) =
+  match fs with
+  | ft :: fs' => guard (forallb (fun y => sty_eqb (snd y) (snd ft)) fs') (head_nid e) Other ;;; root md GE G (snd ft) e
+  | [] => Bad (head_nid e) Other
+  end.
+Proof. reflexivity. Qed.
+Lemma rf_Others2 : forall i all fs e c' e' r', root_fields md GE G i all fs (ACons ChOthers e (ACons c' e' r')) = Bad (head_nid e) Conservative.
 Proof. reflexivity. Qed.
 
 Lemma re_ANil : forall i el n, root_elems md GE G i el n ANil =
@@ -250,6 +257,6 @@ Proof. reflexivity. Qed.
 End ChkEq.
 #[export] Hint Rewrite interp_EInt interp_EBit interp_ENam interp_ECall interp_EBin interp_ENot interp_EAgg interp_EQual
   interp_NId interp_NSel interp_NFld interp_NIdx obj_NId obj_NSel obj_NFld obj_NIdx iargs_ANil iargs_ACons
-  rf_ANil rf_Pos rf_Name rf_Others re_ANil re_Pos re_Others1 re_Others2 re_Name
+  rf_ANil rf_Pos rf_Name rf_Others1 rf_Others2 re_ANil re_Pos re_Others1 re_Others2 re_Name
   cs_SSig cs_SVar cs_SIf cs_SCase cs_SFor cs_SWhile cs_SCall cs_SRet cs_SNull css_SNil css_SCons cca_CANil cca_CACons
   cc_CProc cc_CAssign cc_CBlock cc_CInstE cc_CInstC ccs_CNil ccs_CCons : chkeq.
